@@ -12,7 +12,10 @@ THEOREMS = ["C08_owner_is_handler", "C08_never_handler_of_handler", "C08_scoped_
             "C08_init_resumed", "C08_lineage_budget_waiters", "C08_wait_suspend_records_attempt", "C08_wait_replay_keeps_budget",
             "C08_wait_replay_lands", "C08_wait_replay_keeps_budget_resolve", "C08_wait_replay_keeps_budget_timeout",
             "C08_wait_replay_keeps_budget_rehydrate", "C08_wait_record_survives_serialisation",
-            "C08_wait_replay_budget_spent_fails", "C08_unrepaired_wait_replay_resets_budget", "C08_unrepaired_variant_is_the_model"]
+            "C08_wait_replay_budget_spent_fails", "C08_unrepaired_wait_replay_resets_budget", "C08_unrepaired_variant_is_the_model",
+            "C08_send_event_carries_counts", "C08_send_event_within_budget", "C08_send_event_reaches_mailbox",
+            "C08_lineage_budget_sends", "C08_send_event_lands", "C08_send_event_budget_spent_fails",
+            "C08_send_event_without_counts_reenters"]
 LEAN_TARGETS = ["WfProps.C08"]
 EXPLANATION = (
     "Lean: (1) handler table model: scoped owner first, else wildcard, never for a handler step, owner is a declared "
@@ -21,13 +24,21 @@ EXPLANATION = (
     "the original exception; (3) runner LTS invariant for every schedule, fresh and resumed runs: no attempt, waiter, tick "
     "or timer ever carries a recovery count above a handler's max_recoveries; (4) a suspension in wait_for_event keeps "
     "the lineage's counts: the waiter stores the suspended invocation's attempt record and resolution, timeout and "
-    "rehydration replay exactly that record (the unrepaired fresh replay reset the budget: refuted variant with witness). Tie: table model vs real _collect_catch_error_handlers on random "
+    "rehydration replay exactly that record (the unrepaired fresh replay reset the budget: refuted variant with witness); "
+    "(5) ctx.send_event continues the lineage: the tick a running invocation (first attempt or retry) puts into the mailbox carries "
+    "the counts of its in-progress entry, so the budget invariant holds for schedules with step-side sends with no assumption on "
+    "them, and an item re-dispatched by a handler whose budget is spent fails the run (sending it without counts would re-enter "
+    "the handler: refuted alternative with witness). Tie: table model vs real _collect_catch_error_handlers on random "
     "handler layouts (incl. invalid ones), reducer/runner correspondence. Search: every exhausted failure on real runs "
-    "is checked against the routing rule recomputed from the static spec; handler entries; counts in every state. The "
+    "is checked against the routing rule recomputed from the static spec; handler entries per lineage path counted from the trace "
+    "(edges: returned events AND events sent with ctx.send_event), the counts on every sent tick and at every exhausted failure "
+    "against that count; counts in every state. The "
     "'same with validation disabled' clause is refuted on the tree (known finding, witness replayed)."
 )
 ASSUMPTIONS = suite.ENGINE_ASSUMPTIONS + [
-    "ctx.send_event copies the running invocation's recovery counts (InternalContext.send_event): checked by the monitor, assumed by Act.rcOk",
+    "ctx.send_event of a running invocation is modelled as `sendTick` (counts of the sender's in-progress entry; run_worker's RetryAttempt "
+    "is a copy of them) and tied to the implementation by the `ssend` lines of the runner correspondence; ticks from outside the run "
+    "(external ctx.send_event, cancel, ...) are assumed to carry admissible counts (Act.rcOk: they carry none)",
 ]
 
 
@@ -109,4 +120,7 @@ def run(env: Env) -> Outcome:
     suite.live_runs(env, out, env.budget(350, 7000), [monitors.mon_c08], gen_kwargs={"family": "retry"})
     # lineages that pass through a step suspended in wait_for_event between two entries of their handler
     suite.live_runs(env, out, env.budget(120, 2400), [monitors.mon_c08], gen_kwargs={"family": "wait_retry"})
+    # lineages that continue through ctx.send_event (from the handler itself, from a relay step downstream of it, from the
+    # failing step before it fails) and fail again into the same handler
+    suite.live_runs(env, out, env.budget(120, 1600), [monitors.mon_c08], gen_kwargs={"family": "handler_send"})
     return out
